@@ -201,5 +201,6 @@ LEVEL_TEXT = ("Generated search, 6,000 / 60,000 cases on well-formed and arbitra
               "must come back untouched (or as the empty list under a disagreeing check) with zero detected errors; "
               "for every input that returns, the list is sorted, duplicate-free and check-consistent on both return "
               "paths (class floors make sure the fallback path with a check, the product path with several sites "
-              "and candidates of different length are all reached).")
+              "and candidates of different length are all reached)."
+              ' Long strands (clean walks up to 4,000 nt; 6,000..14,000 nt with 600+ damaged sites, where the give-up path decides) are judged by the same oracle.')
 LEVEL_NOTE = "Trusted: walk predicate and VT formula in pbt/oracles.py. Non-returning or raising calls are C10's subject."
